@@ -1016,7 +1016,10 @@ class Generator:
         pt = code_texts(pat)
         occ = list(find_seq(body, pt))
         if len(occ) < k:
-            raise ExtractError("lost anchor: replace `%s` #%d in %s" % (pat, k, spec.name))
+            # the construct this rule rewrites is gone: verify the body as it now is (if the new text is
+            # outside Verus's subset the compile error degrades the function, DESIGN section 7)
+            self.count("replace-anchor-lost:" + spec.name)
+            return body
         a, b = occ[k - 1]
         nl = text_of(body[a:b + 1]).count("\n")
         self.count("Rx-replace:" + spec.name)
